@@ -376,7 +376,9 @@ spec_stream = generic_stream(
 
 def _meta_dist(dist, o, kv):
     dist["kind_" + str(o.get("kind"))] += 1
-    if o.get("kind") == "bench":
+    if o.get("kind") == "inproc":
+        dist["inproc_nc_%s" % ("1" if o.get("nc") == 1 else "gt_hw" if o.get("nc", 0) > o.get("hardware_threads", 0) else "le_hw")] += 1
+    elif o.get("kind") == "bench":
         dist["bench_%s_nc%s" % (o.get("problem"), o.get("nc"))] += 1
     elif o.get("kind") == "selection":
         dist["sel_n_%s" % o.get("n")] += 1
@@ -385,13 +387,13 @@ def _meta_dist(dist, o, kv):
         dist["mutate_calls"] += o.get("calls", 0)
 
 
-META_SLICE = {"C14": "rej/mutate", "C15": "rej/", "C17": "rej/selection"}
+META_SLICE = {"C14": "rej/mutate", "C15": "rej/", "C17": "rej/selection", "C05": "rej/inproc"}
 
 meta_stream = generic_stream(
     "META", "meta", None,
     lambda pid, acc: acc.startswith(META_SLICE.get(pid, "rej/")),
     ("kind", "input", "input_bits", "rng_seed", "calls", "kept", "n", "pressure", "pressure_bits", "samples", "counts",
-     "problem", "nc", "budget", "order_seed", "f_init", "f_best", "best", "completed"),
+     "problem", "nc", "budget", "order_seed", "f_init", "f_best", "best", "completed", "hardware_threads", "peak", "started", "ok", "wall_ms"),
     lambda o, kv: True,
     _meta_dist)
 
@@ -542,8 +544,10 @@ PROPS = {
     "C03": _run_prop("C03", [{"kind": "run", "name": "mixed", "profile": "mixed", "count": {"quick": 320, "thorough": 4000}, "salt": 3}]),
     "C04": _run_prop("C04", [{"kind": "run", "name": "stop", "profile": "stop", "count": {"quick": 320, "thorough": 4000}, "salt": 4}],
                      ["'delivered' = taken up by the controller's select loop (the abort turn); a request sent while completions are queued may be taken up after some of them (DESIGN 3, C04)"]),
-    "C05": _run_prop("C05", [{"kind": "run", "name": "mixed", "profile": "mixed", "count": {"quick": 320, "thorough": 4000}, "salt": 5}],
-                     None, ["threaded in-process path and child-process path: thread-pool size is a tested fact"]),
+    "C05": _run_prop("C05", [{"kind": "run", "name": "mixed", "profile": "mixed", "count": {"quick": 320, "thorough": 4000}, "salt": 5},
+                             {"kind": "meta", "name": "inproc", "profile": "inproc", "count": {"quick": 24, "thorough": 400}, "salt": 51}],
+                     None, ["threaded in-process path: sync_launch::launch with in_process_computation and a rendezvous objective function (num_concurrent 1, small, = hardware threads, hardware threads + 3, twice the hardware threads): the peak number of calls in progress equals min(num_concurrent, budget) and never exceeds num_concurrent; the thread-pool size is not modelled",
+                            "child-process path: the cli stream of C07/C16 (pids of concurrently running children are not compared)"]),
     "C06": _run_prop("C06", [{"kind": "run", "name": "fail", "profile": "fail", "count": {"quick": 320, "thorough": 4000}, "salt": 6}]),
     "C08": _run_prop("C08", [{"kind": "run", "name": "reeval", "profile": "reeval", "count": {"quick": 160, "thorough": 2000}, "salt": 8},
                              {"kind": "run", "name": "mixed", "profile": "short", "count": {"quick": 160, "thorough": 2000}, "salt": 88}]),
